@@ -23,6 +23,10 @@ func (self *Compiler) compileBlock(node ast.AnalyzedBlock, pushScope bool) {
 
 	if node.Expression != nil {
 		self.compileExpr(node.Expression)
+		// A block of type `null` generates no value.
+		if node.ResultType.Kind() == ast.NullTypeKind {
+			self.insert(newPrimitiveInstruction(Opcode_Drop), node.Expression.Span())
+		}
 	}
 }
 
@@ -65,6 +69,8 @@ func (self *Compiler) compileStmt(node ast.AnalyzedStatement) {
 		self.insert(newValueInstruction(Opcode_Copy_Push, *value.NewValueString(node.CallbackIdent.Ident())), node.Span())
 		self.insert(newValueInstruction(Opcode_Copy_Push, *value.NewValueInt(int64(hostCallArgc))), node.Span())
 		self.insert(newOneStringInstruction(Opcode_HostCall, RegisterTriggerHostFn), node.Span())
+		// A statement leaves nothing on the stack: drop the result of the host call.
+		self.insert(newPrimitiveInstruction(Opcode_Drop), node.Span())
 	case ast.LetStatementKind:
 		self.compileLetStmt(node.(ast.AnalyzedLetStatement), false)
 	case ast.ReturnStatementKind:
@@ -72,6 +78,10 @@ func (self *Compiler) compileStmt(node ast.AnalyzedStatement) {
 		// If there is a return-expression, insert it
 		if node.ReturnValue != nil {
 			self.compileExpr(node.ReturnValue)
+			// A function without a result leaves no value for its caller.
+			if node.ReturnValue.Type().Kind() == ast.NullTypeKind {
+				self.insert(newPrimitiveInstruction(Opcode_Drop), node.Span())
+			}
 		}
 
 		self.leaveTryBlocks(0, node.Span())
@@ -178,10 +188,8 @@ func (self *Compiler) compileStmt(node ast.AnalyzedStatement) {
 	case ast.ExpressionStatementKind:
 		node := node.(ast.AnalyzedExpressionStatement)
 		self.compileExpr(node.Expression)
-		if node.Expression.Type().Kind() != ast.NullTypeKind {
-			// Drop every value that the expression might generate
-			self.insert(newPrimitiveInstruction(Opcode_Drop), node.Range)
-		}
+		// Drop the value that the expression generates
+		self.insert(newPrimitiveInstruction(Opcode_Drop), node.Range)
 	default:
 		panic("Unreachable")
 	}
